@@ -40,6 +40,9 @@ type c15Case struct {
 	Events   []spec.Event `json:"events"`
 	// DenyExec: the (valid) policy answers errno to execve/execveat: the sandbox cannot start the target.
 	DenyExec bool `json:"deny_exec,omitempty"`
+	// Env: further environment variables of the sandbox process (a cross-compilation shell exports GOARCH/GOOS; other
+	// variables of the Go tool chain and of common libraries). None of them is an input of the sandbox command.
+	Env []string `json:"env,omitempty"`
 }
 
 var c15Defects = []string{"missing-file", "empty-file", "yaml-syntax", "wrong-type", "unknown-syscall", "unknown-syscall-conditional", "unknown-action",
@@ -81,6 +84,14 @@ func drawC15(t *rapid.T) c15Case {
 	if c.Defect == "" && rapid.IntRange(0, 5).Draw(t, "denyExec") == 0 {
 		c.DenyExec = true
 		c.Policy = c15DenyExecPolicy(rapid.IntRange(0, 2).Draw(t, "denyExecShape"))
+	}
+	if rapid.IntRange(0, 3).Draw(t, "hostileEnv") == 0 {
+		all := []string{"GOARCH=386", "GOARCH=arm", "GOARCH=arm64", "GOARCH=mips", "GOARCH=wasm", "GOOS=darwin", "GOOS=windows", "GOOS=js", "GOFLAGS=-tags=foo", "GOMAXPROCS=1",
+			"GODEBUG=asyncpreemptoff=1", "LANG=tr_TR.UTF-8", "LC_ALL=C", "TZ=Pacific/Kiritimati", "SECCOMP=0", "NO_NEW_PRIVS=0", "TMPDIR=/nonexistent", "PWD=/nonexistent", "GOTRACEBACK=none"}
+		n := rapid.IntRange(1, 4).Draw(t, "nEnv")
+		for i := 0; i < n; i++ {
+			c.Env = append(c.Env, all[rapid.IntRange(0, len(all)-1).Draw(t, "env")])
+		}
 	}
 	switch rapid.IntRange(0, 3).Draw(t, "mode") {
 	case 0:
@@ -382,7 +393,7 @@ func runSandbox(c *c15Case, text string, writeFile bool) (*c15Run, error) {
 	args = append(args, fmt.Sprintf("-no-new-privs=%v", c.NNP), target, "arg1")
 	cmd := exec.CommandContext(ctx, sb, args...)
 	cmd.Dir = cwd
-	cmd.Env = []string{"PATH=/usr/bin:/bin", "HOME=" + home, "PROBE_MARKER=" + marker, "PROBE_JOB=" + jobPath}
+	cmd.Env = append([]string{"PATH=/usr/bin:/bin", "HOME=" + home, "PROBE_MARKER=" + marker, "PROBE_JOB=" + jobPath}, c.Env...)
 	if c.Uid != 0 {
 		cmd.SysProcAttr = &syscall.SysProcAttr{Credential: &syscall.Credential{Uid: uint32(c.Uid), Gid: uint32(c.Uid)}}
 	}
@@ -429,6 +440,9 @@ func checkC15(raw json.RawMessage) (ev.Result, error) {
 		return ev.Result{}, ev.Inconclusivef("sandbox timed out")
 	}
 	res := ev.Result{Classes: []string{fmt.Sprintf("uid:%d", c.Uid), fmt.Sprintf("nnp:%v", c.NNP)}}
+	if len(c.Env) > 0 {
+		res.Classes = append(res.Classes, "environment-with-toolchain-variables")
+	}
 	if c.Defect == "entry-without-arguments" || c.Defect == "entry-with-empty-arguments" {
 		// Either the file is refused, or the entry applies to every call of that syscall. What must not
 		// happen is that the file is accepted and the rule silently never matches.
